@@ -9,9 +9,12 @@ import (
 	"github.com/lni/dragonboat/v4/config"
 	"github.com/lni/dragonboat/v4/internal/logdb"
 	"github.com/lni/dragonboat/v4/internal/raft"
+	"github.com/lni/dragonboat/v4/internal/rsm"
 	"github.com/lni/dragonboat/v4/internal/tan"
+	"github.com/lni/dragonboat/v4/internal/vfs"
 	"github.com/lni/dragonboat/v4/raftio"
 	pb "github.com/lni/dragonboat/v4/raftpb"
+	sm "github.com/lni/dragonboat/v4/statemachine"
 )
 
 // UpdateFlags is raft.validateUpdate + raft.setFastApply.
@@ -64,4 +67,29 @@ func TanPreopen(db raftio.ILogDB, shardID uint64, replicaID uint64, maxLogFileSi
 		return false, nil
 	}
 	return true, t.VerifC04Preopen(shardID, replicaID, maxLogFileSize)
+}
+
+// ---- the real rsm.StateMachine over a harness supplied on-disk state machine ----
+
+type (
+	StateMachine = rsm.StateMachine
+	Task         = rsm.Task
+	SSRequest    = rsm.SSRequest
+	SSMeta       = rsm.SSMeta
+	SSEnv        = rsm.SSEnv
+	ISavable     = rsm.ISavable
+	ILoadable    = rsm.ILoadable
+	IRecoverable = rsm.IRecoverable
+	IStreamable  = rsm.IStreamable
+	INode        = rsm.INode
+	ISnapshotter = rsm.ISnapshotter
+)
+
+// NewOnDiskRSM builds the replicated state machine of an on-disk state machine
+// replica the way NodeHost.startShard does: NativeSM + OnDiskStateMachine
+// adapter around the user state machine, over the given snapshotter and node.
+func NewOnDiskRSM(cfg config.Config, user sm.IOnDiskStateMachine,
+	snapshotter rsm.ISnapshotter, node rsm.INode, fs vfs.IFS) *rsm.StateMachine {
+	return rsm.NewStateMachine(
+		rsm.NewNativeSM(cfg, rsm.NewOnDiskStateMachine(user), nil), snapshotter, cfg, node, fs)
 }
